@@ -48,7 +48,7 @@ def run(ctx, env):
         if "ipfix" in o["func"] or o["detail"].startswith("floor"):
             ctx.ob("R5.1", o["func"], o["detail"], o["status"] == "discharged", o["reason"], o["site"])
     # R5.2
-    fb = prog.body(IP + "FlowSetBody::parse")
+    fb = classifier_inlined(prog, IP + "FlowSetBody::parse")
     if ctx.anchor("R5.2", IP + "FlowSetBody::parse", fb):
         tpl = {"Template": "<%sTemplate as nom_derive::Parse" % IP, "OptionsTemplate": "<%sOptionsTemplate as nom_derive::Parse" % IP}
         for idv, want in ((2, {"Template"}), (3, {"OptionsTemplate"}), (255, set()), (256, set()), (1000, set()), (65535, set())):
